@@ -120,14 +120,15 @@ class PaneBase:
 
     def __copy__(self):
         return self.from_dict_unchecked(
-            {field.name: getattr(self, field.name) for field in self.__pane_info__.fields},
+            # (a field with `init=False` may not have been set yet)
+            {field.name: getattr(self, field.name) for field in self.__pane_info__.fields if hasattr(self, field.name)},
             set_fields=getattr(self, PANE_SET_FIELDS),
         )
 
     def __deepcopy__(self, memo: t.Any):
         from copy import deepcopy
         return self.from_dict_unchecked(
-            {field.name: deepcopy(getattr(self, field.name), memo) for field in self.__pane_info__.fields},
+            {field.name: deepcopy(getattr(self, field.name), memo) for field in self.__pane_info__.fields if hasattr(self, field.name)},
             set_fields=getattr(self, PANE_SET_FIELDS),
         )
 
